@@ -731,10 +731,10 @@ impl ObjectReceiver {
             return Err(FluteError::new("Pkt cache is full"));
         }
 
-        match self.cache_size.checked_add(pkt.data.len()) {
-            Some(_) => Ok(()),
-            None => Err(FluteError::new("add overflow")),
-        }?;
+        self.cache_size = self
+            .cache_size
+            .checked_add(pkt.data.len())
+            .ok_or_else(|| FluteError::new("add overflow"))?;
         self.cache.push(Box::new(pkt.to_cache()));
         Ok(())
     }
